@@ -18,14 +18,14 @@ _Q = {
     "sigma": [0.01, 0.2], "div": [0.0, 0.5, 3.0], "length": [0.5, 3.0],
     "step": [0.01, 0.05, 10.0], "clamp": [None, 2.0, 5.0],
     "place": ["identity", "translated", "rot90"],
-    "plasma": ["none", "uniform", "nonuniform", "slab"],
+    "plasma": ["none", "uniform", "nonuniform", "slab", "charge-states"],
 }
 _T = {
     "energy": [1e3, 6e4], "power": [0.0, 1e6], "element": ["hydrogen", "deuterium"],
     "sigma": [0.01, 0.05, 0.2], "div": [0.0, 0.5, 1.5, 3.0], "length": [0.5, 1.7, 3.0],
     "step": [0.003, 0.01, 0.05, 0.3, 10.0], "clamp": [None, 1.0, 2.0, 5.0],
     "place": ["identity", "translated", "rot90", "oblique", "nested"],
-    "plasma": ["none", "uniform", "nonuniform", "slab", "uniform-flow", "zero-rate", "neutral"],
+    "plasma": ["none", "uniform", "nonuniform", "slab", "charge-states", "uniform-flow", "zero-rate", "neutral"],
 }
 ALPHABET = {
     "quick": _Q, "thorough": _T,
